@@ -44,6 +44,7 @@ Fresh == [realCalled |-> {},     \* kinds for which a Set with a real provider h
           watch |-> FALSE,       \* a recording error handler is installed
           pend |-> {},           \* messages of refusals made during a hand-over (inside Set)
           handled |-> {},        \* messages the error handler received
+          want |-> <<>>,         \* measurement id -> identity (name|kind|unit|description) of the instrument it was made on
           owner |-> <<>>,        \* observation value -> the invocation that made it
           arrived |-> {}]        \* observation values that arrived at some Observer
 
@@ -102,11 +103,15 @@ Step(m, e) ==
                                              ELSE IF e.kind \in m.realCalled THEN "during" ELSE "before")], {}>>
     [] e.ev = "Call" /\ e.op = "Use" ->
          <<[m EXCEPT !.via = Put(@, e.id, e.via),
+                     !.want = IF e.sid # "" THEN Put(@, e.id, e.sid) ELSE @,
                      !.must = IF e.via # "dflt" \/ e.kind \in m.realRet THEN @ \cup {e.id} ELSE @], {}>>
     [] e.ev = "SdkUse" ->
          LET r == Arrive(m, e.kind, e.id, e.sdk) IN
          <<[r[1] EXCEPT !.reached = @ \cup {e.id}, !.got = Put(@, e.inst, Get(@, e.inst) + 1)],
            r[2]
+           \cup (IF e.id \in DOMAIN m.want /\ m.want[e.id] # e.sid   \* identity = name, kind, unit, description: each
+                 THEN {[kind |-> "measurement-on-wrong-instrument", id |-> e.id,   \* measurement reaches ITS OWN instrument
+                        want |-> m.want[e.id], got |-> e.sid]} ELSE {})
            \cup (IF e.id \in m.reached THEN {[kind |-> "delivered-twice", sig |-> e.kind, id |-> e.id]} ELSE {})
            \cup (IF e.kind \notin m.realCalled THEN {[kind |-> "delivered-before-install", sig |-> e.kind, id |-> e.id]} ELSE {})>>
     [] e.ev = "Ret" /\ e.op = "Use" ->
